@@ -66,7 +66,7 @@ func runC17(c *Ctx) {
 		okDom := len(uses) >= 3
 		bad := ""
 		for _, u := range uses {
-			if fc.dominates(apply, u) {
+			if fc.happensBefore(apply, u) {
 				continue
 			}
 			// forwarded call for non-templ files returns before Apply: allowed if Apply cannot be reached from it and vice versa
